@@ -6,6 +6,11 @@ ALL = ["C%02d" % i for i in range(1, 21)]
 
 # id -> (level category, engine, technique, level text, level note, design ref)
 CLAIMED = {
+ "C03": ("model_checking", "E2 explicit-state search over the data API",
+         "explicit-state BFS over edit histories plus exhaustive (S,T) pair enumeration on the real editor, every transition compared with a keyed-deep-merge reference model",
+         "All pairs (S,T) of conforming trees with |S|+|T| <= B over two schemas (containers, defaults, nested and compound-key lists, leaf-lists) x 3 strategies x From/Into x root/container/list/entry entry points x {reference store, Reflect map, nodeutil.Node map} x {reference, JSON} sources, plus breadth-first search over operation sequences from the empty store deduplicated on the directly inspected store content; each edit runs on the real library and result, error class (errors.Is conflict/not-found) and untouched paths are compared with the reference merge model.",
+         "trusted: the reference merge model (internal/model/merge.go), the direct inspectors of the Go map stores, encoding/json; bounds in evidence; behaviours the statement leaves open (entry order of map-backed lists, insert into an existing-but-empty list) are not enumerated",
+         "DESIGN.md sections 4a and 7 C03"),
  "C10": ("exploration", "E3 value-domain enumeration",
          "bounded exhaustive enumeration of the product target format x source Go kind x boundary value, each conversion run on the real code and compared with an exact big.Rat/text reference",
          "The full product of 13 target formats (scalar and list) x 20 source Go kinds x the boundary value set of each kind (type extremes, +-1 beyond, 2^31, 2^32, 2^53, 2^63, 2^64, -0.0, fractions, non-finite floats, numeric strings with signs/spaces/exponents) is converted by the real val.Conv/ConvOneOf (and node.NewValue for schema-aware types); a success must denote exactly the source number/text/bool. Complete within the stated sets, which contain every boundary at which a fixed-width conversion can wrap, truncate or saturate.",
